@@ -202,7 +202,7 @@ def run(ctx: Ctx) -> None:
 
         def shape(b):
             return (b["ip"]["mode"], tuple((a["op"], a["k"]) for a in b["hist"]))
-        budget = 4200
+        budget = 6000
         pick = {k for k in chosen if is_bad(seqs[k]["pred"]) or seqs[k]["ip"]["mode"] not in ("T", "S")}
         by_shape: dict = {}
         for k in sorted(chosen, key=h):
